@@ -39,7 +39,7 @@ def WFx : PExp → Prop
       d = arrayText (ns.map fun v => String.ofList (natDigits v))
   | .var n => isKeyword n = false
   | .cvar _ idx => idx ≠ [] ∧ WFidx idx
-  | .access n idx => n ≠ "not" ∧ idx ≠ [] ∧ WFxs idx
+  | .access n idx => n ≠ "not" ∧ n ≠ "_" ∧ idx ≠ [] ∧ WFxs idx
   | .call n args => isFunctionName n = true ∧ n ≠ "not" ∧ WFxs args
   | .block k es => isFunctionName k = true ∧ k ≠ "not" ∧ canonKind Gen.blockKinds k = k ∧ blockKindErr k es.length = none
       ∧ es ≠ [] ∧ WFxs es
@@ -66,7 +66,7 @@ where
     | .call "range" [a, b, .bool _] => WFx a ∧ WFx b
     | e => WFx e
   WFvar : IterVar → Prop
-    | .single _ => True
+    | .single n => n ≠ "_"
     | .tuple ns => ns ≠ []
 
 theorem intArrToks_map (ns : List Nat) :
@@ -96,7 +96,7 @@ theorem tupleToks_eq (n : String) (ns : List String) :
     rw [this]
 
 theorem iterVarToks_head : (v : IterVar) → WFx.WFvar v → IterHead v (iterVarToks v)
-  | .single n, _ => IterHead.single n
+  | .single n, h => IterHead.single n h
   | .tuple [], h => absurd rfl h
   | .tuple (n :: ns), _ => by
     have : iterVarToks (.tuple (n :: ns)) = .lpar :: .word n :: (ns.flatMap fun m => [Tok.comma, Tok.word m]) ++ [.rpar] := by
@@ -145,8 +145,8 @@ theorem fmt_tk : (t : PExp) → WFx t →
   | .access n [], h => by simp [WFx] at h
   | .access n (e :: es), h => by
     simp only [WFx] at h
-    have hi := fmtAcc_tk (e :: es) h.2.2
-    exact ⟨[.leaf (.access n (e :: es))], by simp only [fmtToks]; exact Tk.access h.1 hi, fun _ => rfl⟩
+    have hi := fmtAcc_tk (e :: es) h.2.2.2
+    exact ⟨[.leaf (.access n (e :: es))], by simp only [fmtToks]; exact Tk.access h.1 h.2.1 hi, fun _ => rfl⟩
   | .call n args, h => by
     simp only [WFx] at h
     have ha := fmtArgs_tk args h.2.2
